@@ -30,7 +30,15 @@ func lawJobs(L *Loaded, id string, opt runOpts) []unitJob {
 			continue
 		}
 		if id != "" && !hasProp(c.props, id) {
-			continue
+			found := false
+			for _, ps := range c.lawProps {
+				if hasProp(ps, id) {
+					found = true
+				}
+			}
+			if !found {
+				continue
+			}
 		}
 		c := c
 		jobs = append(jobs, unitJob{name: "laws:" + c.key, run: func() *UnitResult { return VerifyLaws(L, c, opt) }})
@@ -42,6 +50,8 @@ type symRes struct {
 	val   *Term // Bool payload of result0
 	ok    *Term // no error, no panic, result is a Bool
 	noErr *Term
+	res   *Term // result0 as it is (interface value)
+	okAny *Term // no error, no panic
 }
 
 func VerifyLaws(L *Loaded, c *FuncContract, opt runOpts) (res *UnitResult) {
@@ -77,10 +87,14 @@ func VerifyLaws(L *Loaded, c *FuncContract, opt runOpts) (res *UnitResult) {
 	}
 	sort.Strings(keys)
 	st := State{reach: tb.True(), heap: map[string]*Term{}}
+	curLaw := ""
 	oblige := func(kind, label string, cond *Term, text string) {
 		q := e.oblige("law", kind+":"+label, &st, cond, token.NoPos)
 		q.Text = text
 		ur.Props[q.Name] = c.props
+		if ps, ok := c.lawProps[curLaw]; ok {
+			ur.Props[q.Name] = ps
+		}
 	}
 	if len(keys) == 0 {
 		oblige("table", "entries", tb.False(), "no registered entries found for table "+c.key)
@@ -107,7 +121,7 @@ func VerifyLaws(L *Loaded, c *FuncContract, opt runOpts) (res *UnitResult) {
 		e.top = nil
 		resv, out, fr := e.encodeFunc(fn, []Val{stackArg, a, b}, e.freeVarVals, st.clone(), nil, nil, nil)
 		if len(resv) != 2 {
-			return symRes{val: tb.False(), ok: tb.False(), noErr: tb.False()}
+			return symRes{val: tb.False(), ok: tb.False(), noErr: tb.False(), res: tb.NilIface(), okAny: tb.False()}
 		}
 		noPanic := tb.True()
 		for _, pc := range fr.panics {
@@ -115,7 +129,7 @@ func VerifyLaws(L *Loaded, c *FuncContract, opt runOpts) (res *UnitResult) {
 		}
 		noErr := tb.Eq(resv[1], tb.NilIface())
 		isBool := tb.IsBox(e.typeKey(bt), e.sortOf(bt), resv[0])
-		return symRes{val: tb.Unbox(e.typeKey(bt), e.sortOf(bt), resv[0]), ok: tb.And(out.reach, noPanic, noErr, isBool), noErr: noErr}
+		return symRes{val: tb.Unbox(e.typeKey(bt), e.sortOf(bt), resv[0]), ok: tb.And(out.reach, noPanic, noErr, isBool), noErr: noErr, res: resv[0], okAny: tb.And(out.reach, noPanic, noErr)}
 	}
 	isNum := func(t types.Type) bool { s := e.sortOf(t); return s == "Int" || s == "Real" }
 	num := func(t types.Type, v *Term) *Term {
@@ -125,6 +139,7 @@ func VerifyLaws(L *Loaded, c *FuncContract, opt runOpts) (res *UnitResult) {
 		return v
 	}
 	for _, law := range c.laws {
+		curLaw = law
 		name, arg := law, ""
 		if i := strings.Index(law, " "); i >= 0 {
 			name, arg = law[:i], strings.TrimSpace(law[i+1:])
@@ -223,6 +238,100 @@ func VerifyLaws(L *Loaded, c *FuncContract, opt runOpts) (res *UnitResult) {
 					}
 				}
 			}
+		case "commutative", "associative", "only-on", "computes-and", "computes-or":
+			var types_ []types.Type
+			seenT := map[string]bool{}
+			for _, k := range keys {
+				for _, t := range []types.Type{entries[k].t1, entries[k].t2} {
+					if !seenT[shortTypeName(t)] {
+						seenT[shortTypeName(t)] = true
+						types_ = append(types_, t)
+					}
+				}
+			}
+			sort.Slice(types_, func(i, j int) bool { return shortTypeName(types_[i]) < shortTypeName(types_[j]) })
+			// the table as a partial function: a pair that is not registered is an error (operationMatrixSimple.Calc)
+			typed := func(t1, t2 types.Type, x, y *Term) (ok, val *Term) {
+				t, has := entries[shortTypeName(t1)+","+shortTypeName(t2)]
+				if !has {
+					return tb.False(), tb.NilIface()
+				}
+				r := apply(t, x, y)
+				return r.okAny, r.res
+			}
+			// dispatch on the dynamic type of an intermediate result
+			dynLeft := func(ok1, v1 *Term, t3 types.Type, z *Term) (ok, val *Term) {
+				ok, val = tb.False(), tb.NilIface()
+				for _, u := range types_ {
+					c := tb.IsBox(e.typeKey(u), e.sortOf(u), v1)
+					o2, v2 := typed(u, t3, tb.Unbox(e.typeKey(u), e.sortOf(u), v1), z)
+					ok = tb.Or(ok, tb.And(c, o2))
+					val = tb.Ite(c, v2, val)
+				}
+				return tb.And(ok1, ok), val
+			}
+			dynRight := func(t1 types.Type, x *Term, ok2, v2 *Term) (ok, val *Term) {
+				ok, val = tb.False(), tb.NilIface()
+				for _, u := range types_ {
+					c := tb.IsBox(e.typeKey(u), e.sortOf(u), v2)
+					o3, v3 := typed(t1, u, x, tb.Unbox(e.typeKey(u), e.sortOf(u), v2))
+					ok = tb.Or(ok, tb.And(c, o3))
+					val = tb.Ite(c, v3, val)
+				}
+				return tb.And(ok2, ok), val
+			}
+			switch name {
+			case "commutative":
+				for _, t1 := range types_ {
+					for _, t2 := range types_ {
+						x, y := operand("x", t1), operand("y", t2)
+						o1, v1 := typed(t1, t2, x, y)
+						o2, v2 := typed(t2, t1, y, x)
+						oblige("commutative", "("+shortTypeName(t1)+","+shortTypeName(t2)+")", tb.And(tb.Eq(o1, o2), tb.Imp(o1, tb.Eq(v1, v2))), "x op y and y op x have the same outcome (value, or an error in both)")
+					}
+				}
+			case "associative":
+				for _, t1 := range types_ {
+					for _, t2 := range types_ {
+						for _, t3 := range types_ {
+							x, y, z := operand("x", t1), operand("y", t2), operand("z", t3)
+							oxy, vxy := typed(t1, t2, x, y)
+							ol, vl := dynLeft(oxy, vxy, t3, z)
+							oyz, vyz := typed(t2, t3, y, z)
+							or, vr := dynRight(t1, x, oyz, vyz)
+							oblige("associative", "("+shortTypeName(t1)+","+shortTypeName(t2)+","+shortTypeName(t3)+")", tb.And(tb.Eq(ol, or), tb.Imp(ol, tb.Eq(vl, vr))), "(x op y) op z and x op (y op z) have the same outcome (value, or an error in both)")
+						}
+					}
+				}
+			case "only-on":
+				allowed := map[string]bool{}
+				for _, a := range strings.Split(arg, ",") {
+					allowed[strings.TrimSpace(a)] = true
+				}
+				for _, k := range keys {
+					t := entries[k]
+					okT := allowed[shortTypeName(t.t1)] && allowed[shortTypeName(t.t2)]
+					c := tb.True()
+					if !okT {
+						c = tb.False()
+					}
+					oblige("only-on", "("+k+")", c, "the generated code evaluates this operator only on "+arg+"; an entry for other operand types is reachable only through constant folding")
+				}
+			case "computes-and", "computes-or":
+				for _, k := range keys {
+					t := entries[k]
+					if shortTypeName(t.t1) != "Bool" || shortTypeName(t.t2) != "Bool" {
+						continue
+					}
+					x, y := operand("x", t.t1), operand("y", t.t2)
+					r := apply(t, x, y)
+					want := tb.And(x, y)
+					if name == "computes-or" {
+						want = tb.Or(x, y)
+					}
+					oblige(name, "("+k+")", tb.And(r.ok, tb.Eq(r.val, want)), "the entry computes what the short-circuit code of the generator computes on two Bool operands")
+				}
+			}
 		default:
 			oblige("law", name, tb.False(), "unknown law "+name)
 		}
@@ -233,3 +342,248 @@ func VerifyLaws(L *Loaded, c *FuncContract, opt runOpts) (res *UnitResult) {
 }
 
 var _ = ssa.NaiveForm
+
+// ---------- operators registered as commutative ----------
+//
+// `flags <Func>`: every operator that <Func> registers with isCommutative == true (AddOp, AddOpImpl, AddOpPure,
+// AddOpBehind, AddSimpleOp) must have the laws the optimizer relies on when it regroups constants: its implementation
+// is commutative and associative, errors included. An implementation built by a table constructor (value.Mul, ...)
+// must have `law commutative` and `law associative` claimed on that table; a function literal is checked directly.
+
+type flaggedOp struct {
+	op    string
+	table string        // constructor function of an operation matrix, or ""
+	lit   *ssa.Function // function literal, or nil
+	pos   token.Pos
+}
+
+func unwrapIface(v ssa.Value) ssa.Value {
+	for {
+		switch x := v.(type) {
+		case *ssa.MakeInterface:
+			v = x.X
+		case *ssa.ChangeInterface:
+			v = x.X
+		case *ssa.ChangeType:
+			v = x.X
+		case *ssa.UnOp:
+			// a load of a local variable that is assigned exactly once (captured by a literal later on)
+			al, isAlloc := x.X.(*ssa.Alloc)
+			if x.Op != token.MUL || !isAlloc || al.Referrers() == nil {
+				return v
+			}
+			var stored ssa.Value
+			n := 0
+			for _, r := range *al.Referrers() {
+				if st, ok := r.(*ssa.Store); ok && st.Addr == al {
+					stored = st.Val
+					n++
+				}
+			}
+			if n != 1 {
+				return v
+			}
+			v = stored
+		default:
+			return v
+		}
+	}
+}
+
+func (L *Loaded) flaggedOps(fn *ssa.Function) (out []flaggedOp, unknown []string) {
+	var walk func(f *ssa.Function)
+	walk = func(f *ssa.Function) {
+		for _, b := range f.Blocks {
+			for _, in := range b.Instrs {
+				call, ok := in.(*ssa.Call)
+				if !ok {
+					continue
+				}
+				callee := call.Common().StaticCallee()
+				if callee == nil || callee.Signature.Recv() == nil {
+					continue
+				}
+				args := call.Common().Args[1:]
+				var opArg, commArg, implArg ssa.Value
+				switch baseName(callee) {
+				case "AddOp", "AddOpImpl", "AddSimpleOp":
+					if len(args) == 3 {
+						opArg, commArg, implArg = args[0], args[1], args[2]
+					}
+				case "AddOpPure":
+					if len(args) == 4 {
+						opArg, commArg, implArg = args[0], args[1], args[2]
+					}
+				case "AddOpBehind":
+					if len(args) == 5 {
+						opArg, commArg, implArg = args[1], args[2], args[3]
+					}
+				}
+				if opArg == nil || !strings.HasSuffix(funcPkgPath(callee), "/funcGen") {
+					continue
+				}
+				name, _ := constString(opArg)
+				c, isConst := commArg.(*ssa.Const)
+				if !isConst {
+					if _, isParam := commArg.(*ssa.Parameter); isParam {
+						continue // forwarding wrapper (AddOp -> AddOpPure): the flag is checked where it is a constant
+					}
+					unknown = append(unknown, name)
+					continue
+				}
+				if c.Value == nil || c.Value.String() != "true" {
+					continue
+				}
+				impl := unwrapIface(implArg)
+				fo := flaggedOp{op: name, pos: call.Pos()}
+				switch x := impl.(type) {
+				case *ssa.Call:
+					if tc := x.Common().StaticCallee(); tc != nil && inRepo(tc) {
+						fo.table = baseName(tc)
+					}
+				case *ssa.MakeClosure:
+					fo.lit = x.Fn.(*ssa.Function)
+				case *ssa.Function:
+					fo.lit = x
+				}
+				if fo.table == "" && fo.lit == nil {
+					unknown = append(unknown, name)
+					continue
+				}
+				out = append(out, fo)
+			}
+		}
+		for _, a := range f.AnonFuncs {
+			walk(a)
+		}
+	}
+	walk(fn)
+	return
+}
+
+func flagJobs(L *Loaded, id string, opt runOpts) []unitJob {
+	var jobs []unitJob
+	for _, c := range L.contracts.order {
+		if c.kind != "flags" || (id != "" && !hasProp(c.props, id)) {
+			continue
+		}
+		c := c
+		jobs = append(jobs, unitJob{name: "flags:" + c.key, run: func() *UnitResult { return VerifyFlags(L, c, opt) }})
+	}
+	return jobs
+}
+
+func VerifyFlags(L *Loaded, c *FuncContract, opt runOpts) (res *UnitResult) {
+	t0 := time.Now()
+	e := NewEnc(L)
+	p := strings.TrimPrefix(strings.TrimPrefix(c.pkg, modPath), "/")
+	e.ctx = p + "." + c.key + "$commutative-flags"
+	ur := &UnitResult{Name: e.ctx, Func: e.ctx, Props: map[string][]string{}, con: c}
+	res = ur
+	defer func() {
+		if r := recover(); r != nil {
+			ur.Err = fmt.Sprint(r)
+			if opt.debug {
+				panic(r)
+			}
+		}
+	}()
+	e.safety = false
+	e.topConPkg = c.pkg
+	tb := e.tb
+	st := State{reach: tb.True(), heap: map[string]*Term{}}
+	oblige := func(kind, label string, cond *Term, text string) {
+		q := e.oblige("law", kind+":"+label, &st, cond, token.NoPos)
+		q.Text = text
+		ur.Props[q.Name] = c.props
+	}
+	fns := L.byKey[c.pkg+"::"+c.key]
+	if c.key == "init" { // package-level initialisers live in the synthetic function init
+		for f := range L.allFuncs {
+			if f.Name() == "init" && f.Pkg != nil && f.Pkg.Pkg.Path() == c.pkg && f.Blocks != nil && f.Parent() == nil {
+				fns = append(fns, f)
+			}
+		}
+	}
+	if len(fns) == 0 {
+		oblige("flags", "target", tb.False(), "function "+c.key+" not found")
+	}
+	for _, fn := range fns {
+		ops, unknown := L.flaggedOps(fn)
+		for _, u := range unknown {
+			oblige("flag-traced", u, tb.False(), "operator "+u+": the commutativity flag or the implementation cannot be traced to a constant / a table constructor / a function literal")
+		}
+		for _, fo := range ops {
+			if fo.table != "" {
+				// the table must claim both laws
+				var tc *FuncContract
+				for _, cc := range L.contracts.order {
+					if cc.kind == "table" && cc.key == fo.table {
+						tc = cc
+					}
+				}
+				has := func(l string) bool {
+					if tc == nil {
+						return false
+					}
+					for _, x := range tc.laws {
+						if x == l {
+							return true
+						}
+					}
+					return false
+				}
+				cond := tb.True()
+				if !has("commutative") || !has("associative") {
+					cond = tb.False()
+				}
+				oblige("flagged-table-has-laws", fo.op+":"+fo.table, cond, "operator "+fo.op+" is registered as commutative: table "+fo.table+" must carry `law commutative` and `law associative` (proved in its own unit)")
+				continue
+			}
+			// a function literal: func(a, b V) (V, error) or func(st, a, b V) (V, error)
+			lit := fo.lit
+			np := len(lit.Params)
+			if np != 2 && np != 3 {
+				oblige("flag-traced", fo.op, tb.False(), "unexpected signature of the implementation literal")
+				continue
+			}
+			vt := lit.Params[np-1].Type()
+			opLabel := fo.op + "[" + shortTypeName(vt) + "]"
+			mk := func(role string) *Term {
+				v := tb.Const("v_"+role+"_"+sanitize(opLabel), e.sortOf(vt))
+				e.assumeWF(tb.True(), vt, v)
+				return v
+			}
+			applyLit := func(x, y *Term) (ok, val *Term) {
+				var args []Val
+				if np == 3 {
+					args = append(args, Val{T: []*Term{e.fresh("st", lit.Params[0].Type())}})
+				}
+				args = append(args, Val{T: []*Term{x}}, Val{T: []*Term{y}})
+				e.bindFreeVars(lit)
+				e.top = nil
+				resv, out, fr := e.encodeFunc(lit, args, e.freeVarVals, st.clone(), nil, nil, nil)
+				if len(resv) != 2 {
+					return tb.False(), x
+				}
+				noPanic := tb.True()
+				for _, pc := range fr.panics {
+					noPanic = tb.And(noPanic, tb.Not(pc))
+				}
+				return tb.And(out.reach, noPanic, tb.Eq(resv[1], tb.NilIface())), resv[0]
+			}
+			x, y, z := mk("x"), mk("y"), mk("z")
+			o1, v1 := applyLit(x, y)
+			o2, v2 := applyLit(y, x)
+			oblige("commutative", opLabel, tb.And(tb.Eq(o1, o2), tb.Imp(o1, tb.Eq(v1, v2))), "x op y and y op x have the same outcome")
+			ol, vl := applyLit(v1, z)
+			oyz, vyz := applyLit(y, z)
+			or, vr := applyLit(x, vyz)
+			ol, or = tb.And(o1, ol), tb.And(oyz, or)
+			oblige("associative", opLabel, tb.And(tb.Eq(ol, or), tb.Imp(ol, tb.Eq(vl, vr))), "(x op y) op z and x op (y op z) have the same outcome")
+		}
+	}
+	ur.EncodeS = time.Since(t0).Seconds()
+	e.finish(ur, opt)
+	return ur
+}
